@@ -56,6 +56,9 @@ CmdChoices(kind) == IF kind \in NoCmdKinds THEN {"absent"}
 \* command line's v1/v2, "forced" the value a mode switch (junit, wip, quiet, steps_catalog) forces.
 FTok(a) == IF a = "v1" THEN "fv1" ELSE "fv2"
 CTok(a) == IF a = "v1" THEN "cv1" ELSE "cv2"
+\* A layer assigns an option as soon as it MENTIONS it, whatever the value is: a file value that converts to
+\* something falsy (jobs = 0, logging_level = NOTSET, a boolean false word) or an empty text ("stage =", stored as
+\* "" like any other text) is the file's value and replaces the default just as v1/v2 do.
 \* a mode switch is on iff its value is the "true" one (v1)
 ModeOn(store) == store \in {<<"fv1">>, <<"cv1">>}
 
